@@ -12,11 +12,16 @@ of the jump layer (used as it is for every instruction of that layer) plus
   `last_error_address := i` and control goes to `h` — *whether or not a handler is already running*; with
   `ErrorHandler::Next` control goes to `find_next(i)`; with `ErrorHandler::None` the run ends with the error;
 * `OnErrorGoTo a` / `OnErrorResumeNext` / `OnErrorGoToZero`: set the handler register;
+* the dispatch to a handler records the heights of the register stack and of the value stack (`last_error_marks`, dee4bd6)
+  and pushes a fresh register frame for the handler (df9ea58); `Resume` / `ResumeNext` cut both stacks back to the recorded
+  heights (`leaveHandler`);
 * `Resume` / `ResumeNext` / `ResumeLabel a`: `take_last_error_address` (clears the code; error 20 `ResumeWithoutError` at the
   instruction's position when there is none — dispatched like any other error), then `find_current` / `find_next` of the
   recorded address / the label, and the handler context is popped.  `ResumeLabel` also leaves every handler context and
-  cuts the register stack back to `1 + for depth` and the value stack to the `select depth` of the label (`label_depths`,
-  1a4d83d); in the main module (`return_marks` empty) the GOSUB stack is kept;
+  cuts the register stack back to `registers + for depth` and the value stack to `values + select depth` of the label
+  (`label_depths`, 1a4d83d), where `(registers, values)` are the heights recorded at the innermost pending GOSUB (a routine
+  runs on top of its caller's frames; 26672d3) and `(1, 0)` when none is pending; in the main module (`return_marks` empty)
+  the GOSUB stack is kept;
 * `NearestStatementFinder::{find_current, find_next}` over the statement-address table: `RbModel.Ctl.findCurrentWith` /
   `findNextWith` with the binary-search answer `Ctl.bsFirst` (the table of a program of this layer has no duplicates); a
   panic of the real finder is `stuck`;
@@ -27,6 +32,7 @@ namespace RbModel.ErrL.Vm
 open RbModel RbModel.Num RbModel.Ast RbModel.ErrL.Compile
 open RbModel.JmpL.Compile (CInstr Code)
 open RbModel.JmpL.Vm (Vm truncTop)
+open RbModel.JmpL.Vm (Regs)
 
 /-- what the interpreter is given: the instructions, the statement addresses, the label depths -/
 structure Prog where
@@ -56,8 +62,11 @@ structure EVm where
   errCode : Option Nat
   /-- the handler contexts pushed by `push_error_handler_context` and not yet popped -/
   ctx : Nat
+  /-- `last_error_marks`: the heights of `register_stack` (the current frame counted) and of `value_stack` when the most
+  recent error was handed to a handler (dee4bd6) -/
+  errMarks : Nat × Nat := (0, 0)
 
-def EVm.init (slots : List Ty) : EVm := ⟨Vm.init slots, .none, none, none, 0⟩
+def EVm.init (slots : List Ty) : EVm := ⟨Vm.init slots, .none, none, none, 0, (0, 0)⟩
 
 inductive StepRes where
   | next (σ : EVm)
@@ -74,7 +83,10 @@ def codeResumeWithoutError : Nat := 20
 def raise (P : Prog) (σ : EVm) (c : Nat) (p : Pos) : StepRes :=
   let σ := { σ with errCode := some c }
   match σ.handler with
-  | .address h => .next { σ with ctx := σ.ctx + 1, errAddr := some σ.b.pc, b := { σ.b with pc := h } }
+  | .address h =>
+    -- the heights are recorded (dee4bd6) and the handler gets a register frame of its own (df9ea58)
+    .next { σ with ctx := σ.ctx + 1, errAddr := some σ.b.pc, errMarks := (1 + σ.b.regStack.length, σ.b.vals.length),
+                   b := { σ.b with pc := h, regs := Regs.new, regStack := σ.b.regs :: σ.b.regStack } }
   | .next =>
     match findNext P.marks σ.b.pc with
     | some t => .next { σ with b := { σ.b with pc := t } }
@@ -95,6 +107,14 @@ def readArgs : List (Val × Option Nat) → List Val → Nat → Nat × (Except 
         | r => r
       | .err e => (idx + 1, .error (RbModel.Ref.codeOf e))
       | .inexact => (idx + 1, .error (RbModel.Ref.codeOf .typeMismatch))
+
+/-- `leave_error_handler_blocks`: RESUME / RESUME NEXT cut the register stack and the value stack back to the heights
+recorded when the error was handed to the handler (the handler's own frame, the frames of its FOR loops, the selectors of
+its SELECT CASE blocks go) -/
+def leaveHandler (σ : EVm) : StepRes :=
+  match truncTop σ.errMarks.1 (σ.b.regs :: σ.b.regStack) with
+  | [] => .stuck
+  | r :: rs => .next { σ with b := { σ.b with regs := r, regStack := rs, vals := truncTop σ.errMarks.2 σ.b.vals } }
 
 def step (P : Prog) (σ : EVm) : StepRes :=
   match P.code[σ.b.pc]? with
@@ -120,14 +140,14 @@ def step (P : Prog) (σ : EVm) : StepRes :=
       | some a =>
         match findCurrent P.marks a with
         | none => .stuck
-        | some t => .next { σ with errAddr := none, errCode := none, ctx := σ.ctx - 1, b := { σ.b with pc := t } }
+        | some t => leaveHandler { σ with errAddr := none, errCode := none, ctx := σ.ctx - 1, b := { σ.b with pc := t } }
     | .resumeNext =>
       match σ.errAddr with
       | none => raise P { σ with errCode := none } codeResumeWithoutError p
       | some a =>
         match findNext P.marks a with
         | none => .stuck
-        | some t => .next { σ with errAddr := none, errCode := none, ctx := σ.ctx - 1, b := { σ.b with pc := t } }
+        | some t => leaveHandler { σ with errAddr := none, errCode := none, ctx := σ.ctx - 1, b := { σ.b with pc := t } }
     | .resumeLabel a =>
       match σ.errAddr with
       | none => raise P { σ with errCode := none } codeResumeWithoutError p
@@ -136,10 +156,14 @@ def step (P : Prog) (σ : EVm) : StepRes :=
         match lookupLabelDepth a P.depths with
         | none => .next { σ with b := { σ.b with pc := a } }
         | some (fd, sd) =>
-          -- `register_stack.truncate(1 + for_depth)`, `value_stack.truncate(select_depth)`
-          match truncTop (1 + fd) (σ.b.regs :: σ.b.regStack) with
+          -- `register_stack.truncate(registers + for_depth)`, `value_stack.truncate(values + select_depth)` with
+          -- `(registers, values)` = the heights recorded at the innermost pending GOSUB, `(1, 0)` when there is none
+          let (rh, vh) := match σ.b.gosubs with
+            | [] => (1, 0)
+            | (_, rh, vh) :: _ => (rh, vh)
+          match truncTop (rh + fd) (σ.b.regs :: σ.b.regStack) with
           | [] => .stuck
-          | r :: rs => .next { σ with b := { σ.b with pc := a, regs := r, regStack := rs, vals := truncTop sd σ.b.vals } }
+          | r :: rs => .next { σ with b := { σ.b with pc := a, regs := r, regStack := rs, vals := truncTop (vh + sd) σ.b.vals } }
 
 inductive RunRes where
   | halted (σ : EVm)
